@@ -104,7 +104,10 @@ type Task struct {
 	reads  map[string]bool // "location\x00lockset"
 	writes map[string]bool
 	held   map[string]int
-	done   bool
+	// atomic accesses: never in conflict with each other, but in conflict with a plain access of another goroutine
+	areads  map[string]bool
+	awrites map[string]bool
+	done    bool
 }
 
 type WG struct{ n int }
@@ -139,6 +142,24 @@ func (m *M) recordAccess(p Ptr, write bool) {
 		t.writes[k] = true
 	} else {
 		t.reads[k] = true
+	}
+}
+
+// recordAtomic: footprint of a sync/atomic operation
+func (m *M) recordAtomic(p Ptr, write bool) {
+	s := m.sched
+	if s == nil || p.obj == nil || !m.tracking || p.obj.ghost || (s.cur == s.mainT && s.joined) {
+		return
+	}
+	t := s.cur
+	if t.areads == nil {
+		t.areads, t.awrites = map[string]bool{}, map[string]bool{}
+	}
+	k := locKey(p) + "\x00" + t.lockset()
+	if write {
+		t.awrites[k] = true
+	} else {
+		t.areads[k] = true
 	}
 }
 
@@ -300,6 +321,13 @@ func (m *M) checkRaces() []string {
 			conflict(a.writes, b.writes)
 			conflict(a.writes, b.reads)
 			conflict(b.writes, a.reads)
+			// atomic against plain
+			conflict(a.awrites, b.writes)
+			conflict(a.awrites, b.reads)
+			conflict(a.areads, b.writes)
+			conflict(b.awrites, a.writes)
+			conflict(b.awrites, a.reads)
+			conflict(b.areads, a.writes)
 		}
 	}
 	sort.Strings(out)
